@@ -7,7 +7,8 @@ SPEC = {
                  "C04_get_after_set", "C04_get_after_delete", "C04_has_iff_get", "C04_iterate_exact",
                  "C04_deletePrefix_exact", "C04_batch_last_wins", "C04_cancel_noop", "C04_batch_handles_independent",
                  "C04_closed_everything_fails", "C04_close_is_final", "C04_copy_refines", "C04_copy_spec", "C04_prefix_range",
-                 "C04_upperBound_none", "C04_concatBytes", "C04_copyBytes"],
+                 "C04_upperBound_none", "C04_concatBytes", "C04_copyBytes", "C04_closed_forever", "C04_iterate_backward_is_reverse",
+                 "C04_wrapper_trace", "C04_debug_reports", "C04_flush_follows_mutation", "C04_trace_tables_agree"],
     "trusted_base": [
         "hand-written model Hive/Model/KV.lean of kvstore/mapdb (+ flushkv, debug wrappers), tied to the working tree by "
         "line-by-line differential execution (harness/c04) on every run",
